@@ -2,9 +2,71 @@
   EG.Driver.Rrect — model side of the `rrect.*` correspondence streams (harness/src/m_rrect.rs).
 -/
 import EG.Driver.Util
+import EG.Model.RoundedRect
 namespace EG.Driver
 open EG
 
-def handleRrect (_stream : String) (_t : Toks) : Option String := none
+private def rrAlignOf : Nat → StrokeAlignment | 0 => .inside | 1 => .center | _ => .outside
+
+private def rrParseCol (s : String) : Option Color := if s == "-" then none else some (parseNat s)
+
+private def rrRadii (t : Toks) : CornerRadii × Toks :=
+  let (tl, t) := t.sz
+  let (tr, t) := t.sz
+  let (br, t) := t.sz
+  let (bl, t) := t.sz
+  (⟨tl, tr, br, bl⟩, t)
+
+private def rrGeometry (t : Toks) : RoundedRect × Toks :=
+  let (r, t) := t.rect
+  let (c, t) := rrRadii t
+  (⟨r, c⟩, t)
+
+private def rrFmtRadii (c : CornerRadii) : String :=
+  s!"{c.tl.w},{c.tl.h},{c.tr.w},{c.tr.h},{c.br.w},{c.br.h},{c.bl.w},{c.bl.h}"
+
+private def rrFmt (r : RoundedRect) : String := s!"{fmtRect r.rect},{rrFmtRadii r.corners}"
+
+private def rrFmtCall : Call → String
+  | .drawIter px => "di:" ++ fmtPix px
+  | .fillContiguous a cs => s!"fc:{fmtRect a}:{fmtNats cs}"
+  | .fillSolid a c => s!"fs:{fmtRect a}:{c}"
+  | .clear c => s!"cl:{c}"
+
+private def rrFmtLog (cs : List Call) : String := joinOr "|" (cs.map rrFmtCall)
+
+def handleRrect (stream : String) (t : Toks) : Option String :=
+  match stream with
+  | "rrect.points" =>
+    let (r, _) := rrGeometry t
+    let tl := r.rect.tl
+    let ys := irange (tl.y - 3) (tl.y + r.rect.size.h + 3)
+    let xs := irange (tl.x - 3) (tl.x + r.rect.size.w + 3)
+    let c := RRContains.new r
+    let bits := ys.flatMap (fun y => xs.map (fun x => c.contains ⟨x, y⟩))
+    some s!"bb={fmtRect r.boundingBox} cf={rrFmtRadii r.confineRadii.corners} pts={fmtPts r.points} in={fmtBits bits}"
+  | "rrect.confine" =>
+    let (sz, t) := t.sz
+    let (c, _) := rrRadii t
+    some s!"c={rrFmtRadii (c.confine sz)}"
+  | "rrect.areas" =>
+    let (r, t) := rrGeometry t
+    let (w, t) := t.nat
+    let (a, _) := t.nat
+    let st : Style := ⟨none, some 9, w, rrAlignOf a⟩
+    some s!"s={rrFmt (r.strokeArea st)} f={rrFmt (r.fillArea st)} sbb={fmtRect (r.styledBoundingBox st)}"
+  | "rrect.styled" =>
+    let (r, t) := rrGeometry t
+    let (f, t) := t.str
+    let (s, t) := t.str
+    let (w, t) := t.nat
+    let (a, t) := t.nat
+    let (B, _) := t.rect
+    let st : Style := ⟨rrParseCol f, rrParseCol s, w, rrAlignOf a⟩
+    let calls := r.drawStyled st
+    let m1 := canonPix (calls.flatMap (Call.writesDefault B))
+    let m2 := canonPix (calls.flatMap (Call.writesNative B))
+    some s!"log={rrFmtLog calls} m1={fmtPix m1} m2={fmtPix m2} px={fmtPix (r.styledPixels st)}"
+  | _ => none
 
 end EG.Driver
